@@ -155,12 +155,18 @@ def r08b(ctx):
     for role, classes in sorted(roles.items()):
         for ci in classes:
             mi = analyse_masker(ctx.repo, ci)
-            if mi.error or not mi.blend_ok:
-                raise AnalysisError(f'R08b: cannot model theta of {ci.name}: '
-                                    f'{mi.error or mi.blend_msg}')
+            if mi.error:
+                raise AnalysisError(f'R08b: cannot model theta of {ci.name}: {mi.error}')
+            if not mi.blend_ok:
+                ctx.ob('R08b', f'{ci.name}.theta keep-alive blend', False,
+                       f'theta is not [C @] (|p|*(1-ka)+ka): {mi.blend_msg} — no tap is kept '
+                       f'alive by construction', where(mi.theta_fn))
+                continue
             alive_by_role.setdefault(role, []).append((ci, mi))
     # every combination (one masker per role) must share a certainly-alive tap
     rs = sorted(alive_by_role)
+    if len(rs) < 2:
+        return
     import itertools
     for combo in itertools.product(*[alive_by_role[r] for r in rs]):
         common = [pos for pos in (S, E) if all(mi.alive[pos] is True for _, mi in combo)]
